@@ -115,13 +115,15 @@ def map_args(e, f):
 
 
 def rw_negated_composite(e):
-    """The expression whose logic is what the wording of e says: not_(composite) reads as composite of the negations."""
+    """F9b, repaired by fixes/F09b-*.patch.  The expression whose logic is what the PRE-FIX wording of e says: not_(composite)
+    read as the composite of the negations.  It preserves the wording only on a tree without the repair: `explain` checks
+    that, so on the repaired tree this cause explains nothing (negated composites are in scope of the oracle)."""
     if G.is_value_arg(e):
         return e
     if e[0] == "not_":
         inner = strip_transparent(e[1])
         if not G.is_value_arg(inner):
-            if inner[0] in ("all_of", "any_of"):
+            if inner[0] in ("all_of", "any_of") and inner[1]:       # (an empty one is the empty-composite cause)
                 return rw_negated_composite((inner[0], [("not_", a) for a in inner[1]]))
             if inner[0] == "not_":
                 return rw_negated_composite(("is_", inner[1]))
@@ -130,11 +132,59 @@ def rw_negated_composite(e):
     return map_args(e, rw_negated_composite)
 
 
-def rw_empty_composite(e):
+DUAL = {"all_of": "any_of", "any_of": "all_of"}
+
+
+def negated_composite_under(a):
+    """a = not_^k(composite) (is_ is transparent, k >= 1): (k odd, the composite); else None."""
+    k = 0
+    while not G.is_value_arg(a) and a[0] in ("not_", "is_"):
+        k += a[0] == "not_"
+        a = a[1]
+    if k and not G.is_value_arg(a) and a[0] in ("all_of", "any_of"):
+        return k % 2 == 1, a
+    return None
+
+
+def rw_negated_operand(e):
+    """Open finding.  The same logic and, up to the layout, the same wording as e (on a tree with the F9b repair), with every
+    composite that sits behind not_() as an operand of another composite made visible to its parent: not_(all_of(b, c))
+    becomes any_of(not_(b), not_(c)).  The parent then itemises instead of joining the operand on its own line without
+    grouping."""
     if G.is_value_arg(e):
         return e
-    if e[0] in ("all_of", "any_of") and not e[1]:
-        return ("all_of", [])
+    if e[0] in ("all_of", "any_of"):
+        args = []
+        for a in e[1]:
+            nc = None if G.is_value_arg(a) else negated_composite_under(a)
+            if nc:
+                odd, comp = nc
+                a = (DUAL[comp[0]], [("not_", x) for x in comp[1]]) if odd else comp
+            args.append(rw_negated_operand(a))
+        return (e[0], args)
+    return map_args(e, rw_negated_operand)
+
+
+def rw_empty_composite(e, parity=0):
+    """all_of(), any_of() and their negations are all worded ':' (no operand shows the negation, no word the connective).
+    The rewrite reads every ':' as a condition that holds: the empty composite (possibly behind not_) is replaced by one that
+    accepts everything when it stands under an even number of negations (parity: the not_ above it up to the enclosing
+    sub-description) and nothing under an odd number.  Behind not_ it stays a Not object and bare it stays a composite (its
+    parent lays the two out differently)."""
+    if G.is_value_arg(e):
+        return e
+    x, k = e, 0
+    while not G.is_value_arg(x) and x[0] in ("not_", "is_"):
+        k += x[0] == "not_"
+        x = x[1]
+    if not G.is_value_arg(x) and x[0] in ("all_of", "any_of") and not x[1]:
+        if parity % 2 == 0:
+            return ("not_", ("not_", ("all_of", []))) if k else ("all_of", [])
+        return ("not_", ("all_of", [])) if k else ("any_of", [])
+    if e[0] == "not_":
+        return ("not_", rw_empty_composite(e[1], parity + 1))
+    if e[0] in ("all_of", "any_of", "is_"):
+        return map_args(e, lambda a: rw_empty_composite(a, parity))
     return map_args(e, rw_empty_composite)
 
 
@@ -157,20 +207,43 @@ def rw_dict_key(e):
     return map_args(e, rw_dict_key)
 
 
-REWRITES = [("negated-composite", rw_negated_composite), ("empty-composite", rw_empty_composite), ("dict-key", rw_dict_key)]
+# (cause, rewrite, mode).  mode "wording": the rewrite must leave the description as it is (checked on the tree under test) and
+# may change the logic -- it yields the expression that the wording reads as;  mode "layout": the rewrite must leave the logic
+# as it is (checked over the value domain) and the description up to its layout (same words in the same order).
+REWRITES = [("negated-composite", rw_negated_composite, "wording"), ("empty-composite", rw_empty_composite, "wording"),
+            ("dict-key", rw_dict_key, "wording"), ("negated-operand", rw_negated_operand, "layout")]
+
+
+def words_of(description):
+    """The words of a description without its layout (line breaks, indentation, the ':' head and the '-' bullets)."""
+    return [w for w in description.split() if w not in ("-", ":")]
+
+
+def apply_cause(e, rw, mode, dom):
+    """rw(e) when the rewrite is what its cause says on the tree under test, else None."""
+    x = rw(e)
+    if x == e:
+        return e
+    d0, d1 = describe_full(e, False, False)[0], describe_full(x, False, False)[0]
+    if mode == "wording":
+        return x if d0 == d1 else None
+    return x if words_of(d0) == words_of(d1) and accepted(e, dom) == accepted(x, dom) else None
 
 
 def explain(e1, e2, dom):
-    """Smallest set of known causes whose wording-preserving rewrites make the two expressions accept the same values.
-    Returns the list of tags, or None when no combination explains the collision."""
+    """Smallest set of known causes that account for the collision: after their rewrites the two expressions either accept the
+    same values or are no longer described alike.  Returns the list of tags, or None when no combination explains it."""
     for k in range(1, len(REWRITES) + 1):
         for combo in itertools.combinations(REWRITES, k):
             a, b = e1, e2
-            for _, rw in combo:
-                a, b = rw(a), rw(b)
             try:
-                if accepted(a, dom) == accepted(b, dom):
-                    return [t for t, _ in combo]
+                for _, rw, mode in combo:
+                    a = None if a is None else apply_cause(a, rw, mode, dom)
+                    b = None if b is None else apply_cause(b, rw, mode, dom)
+                if a is None or b is None or (a, b) == (e1, e2):
+                    continue
+                if accepted(a, dom) == accepted(b, dom) or describe_full(a, False, False)[0] != describe_full(b, False, False)[0]:
+                    return [t for t, _, _ in combo]
             except Exception:
                 pass
     return None
@@ -208,20 +281,68 @@ def root_variants(e):
         yield (inner[0], [inner[1][0], (op, inner[1][1:] + e[1][1:])])
 
 
-def variants(e):
+def negate(a):
+    return a[1] if not G.is_value_arg(a) and a[0] == "not_" else ("not_", a)
+
+
+def variants(e, root=root_variants):
     if G.is_value_arg(e):
         return
-    yield from root_variants(e)
+    yield from root(e)
     for i, sub in enumerate(G.sub_args(e)):
         if not G.is_value_arg(sub):
-            for v in variants(sub):
+            for v in variants(sub, root):
                 yield G._replace_arg(e, i, v)
 
 
+def negation_variants_at_root(e):
+    """The neighbours of root_variants that concern a negated composite (always tried, the others are sampled)."""
+    op = e[0]
+    if op == "not_" and not G.is_value_arg(e[1]):
+        inner = strip_transparent(e[1])
+        if not G.is_value_arg(inner) and inner[0] in ("all_of", "any_of"):
+            # not_(rel[a, b..]): the composite of the negations with the same connective (what the pre-F9b wording said) and
+            # with the dual one (De Morgan: the same logic)
+            yield (inner[0], [("not_", a) for a in inner[1]])
+            yield (DUAL[inner[0]], [("not_", a) for a in inner[1]])
+    if op in ("all_of", "any_of") and len(e[1]) >= 2:
+        # a negated composite as first / last operand: the other grouping of the same line
+        #   rel1[a.., not_(rel1[b, c..])]  reads  a.. rel1 not-b rel2 not-c..  like  rel2[not_(rel2[not-a.., b]), not-c..]   (rel2 = dual of rel1)
+        last, first = e[1][-1], e[1][0]
+        nc = None if G.is_value_arg(last) else negated_composite_under(last)
+        if nc and nc[0] and nc[1][0] == op and len(nc[1][1]) >= 2:
+            inner = nc[1][1]
+            yield (DUAL[op], [("not_", (DUAL[op], [negate(a) for a in e[1][:-1]] + [inner[0]]))] + [negate(c) for c in inner[1:]])
+        nc = None if G.is_value_arg(first) else negated_composite_under(first)
+        if nc and nc[0] and nc[1][0] == op and len(nc[1][1]) >= 2:
+            inner = nc[1][1]
+            yield (DUAL[op], [negate(b) for b in inner[:-1]] + [("not_", (DUAL[op], [inner[-1]] + [negate(a) for a in e[1][1:]]))])
+
+
+def gen_negated_composite(rng):
+    """Fragment expressions built around not_(composite): alone, as an operand of a composite, over a nested composite."""
+    def leaves(k):
+        return [G.gen_leaf(rng, True) if rng.random() < 0.8 else ("not_", G.gen_leaf(rng, True)) for _ in range(k)]
+    rel1, rel2 = rng.choice(["all_of", "any_of"]), rng.choice(["all_of", "any_of"])
+    shape = rng.randrange(4)
+    if shape == 0:
+        return ("not_", (rel1, leaves(rng.choice([1, 2, 2, 3]))))
+    if shape == 1:
+        ops = leaves(rng.choice([1, 1, 2]))
+        ops.insert(rng.choice([0, len(ops), len(ops), rng.randrange(len(ops) + 1)]), ("not_", (rel2, leaves(rng.choice([2, 2, 3])))))
+        return (rel1, ops)
+    if shape == 2:
+        return ("not_", (rel1, leaves(rng.choice([1, 2])) + [(rel2, leaves(2))]))
+    return (rng.choice(["has_item", "has_all_items", "has_length", "not_"]), ("not_", (rel1, leaves(2))))
+
+
 # witnesses of the recorded findings (same as the Coq `..._refuted` theorems), replayed on every run
-GT0, LT10 = ("greater_than", 0), ("less_than", 10)
+GT0, LT10, EQ5 = ("greater_than", 0), ("less_than", 10), ("equal_to", 5)
 WITNESSES = {
+    # repaired (fixes/F09b-*.patch, "fixed" in known_findings.d/C17.json): kept as a regression witness, reported as a violation
     "negated-composite": (("not_", ("all_of", [GT0, LT10])), ("all_of", [("not_", GT0), ("not_", LT10)]), 20),
+    "negated-operand": (("any_of", [("not_", ("any_of", [("not_", GT0), LT10])), ("not_", EQ5)]),
+                        ("all_of", [GT0, ("not_", ("all_of", [LT10, EQ5]))]), 0),
     "empty-composite": (("all_of", []), ("any_of", []), None),
     "dict-key": (("equal_to", {1: 2}), ("equal_to", {"1": 2}), {1: 2}),
     "wrapped-composite": (("all_of", [("hide", ("any_of", [("$", 1), ("$", 2)])), ("$", 3)]),
@@ -235,9 +356,9 @@ Import ListNotations.
 From LCC Require Import Base.Util Model.PyVal Model.Matcher gen.TablesMatchers Model.Describe.
 Definition agrees_d (c : matcher * transf * str * transf) : bool :=
   let '(m, t, s, t') := c in
-  let '(ms, mt) := describe_st not_of_source m t in str_eqb ms s && transf_eqb mt t'.
+  let '(ms, mt) := describe_st not_of_source comp_of_source m t in str_eqb ms s && transf_eqb mt t'.
 Definition agrees_l (c : option str * matcher * str) : bool :=
-  let '(h, m, s) := c in str_eqb (log_description not_of_source h m) s.
+  let '(h, m, s) := c in str_eqb (log_description not_of_source comp_of_source h m) s.
 """
 
 
@@ -266,7 +387,8 @@ def smallest(exprs):
 def check(run):
     run.trusted += [
         "harness/tables_matchers.py: the wording tables and the recognised shapes of every build_description, of "
-        "MatcherDescriptionTransformer.__call__, of the composite rendering helpers and of Not.build_description are read off "
+        "MatcherDescriptionTransformer.__call__, of the composite rendering helpers, of Not.build_description and of "
+        "AllOf / AnyOf.build_description (the relationship word under a positive / negative transformer) are read off "
         "the source (AST shape hash + constants); the rendering logic itself is modelled by hand in Model/Describe.v and "
         "compared with the implementation string by string on every run",
         "modelled, not verified: json.dumps(ensure_ascii=False) on the value domain, str.split/join, re prefix matching with "
@@ -275,8 +397,9 @@ def check(run):
     run.assume += [
         "values are None, bool, int, str, list, dict (no float); override_description receives ASCII text; is_between bounds are ints",
         "faithfulness is evaluated on the fragment named by the property (leaf matchers, not_, all_of, any_of, has_entry, has_item, "
-        "has_all_items, has_length, type matchers; no hide_result_details / override_description), over a fixed separating value "
-        "domain; user strings containing ' and ' / ' or ' as token boundaries are not claimed",
+        "has_all_items, has_length, type matchers; no hide_result_details / override_description), negated composites included "
+        "(F9b repaired), over a fixed separating value domain; user strings containing ' and ' / ' or ' as token boundaries are "
+        "not claimed",
         "match_pattern, is_text, is_json, is_float are not modelled",
     ]
     run.prove(extra_targets=["theories/Base/Util.vo", "theories/Model/PyVal.vo", "theories/Model/Matcher.vo",
@@ -316,7 +439,11 @@ def check(run):
     # ---- the property's fragment: transformer oracles + faithfulness by grouping
     groups = {}
     for i in range(n_frag):
-        e = G.gen_expr(run.rng, run.rng.choice([0, 1, 1, 2, 2, 3, 4]), FRAGMENT)
+        if i % 8 == 7:
+            e = gen_negated_composite(run.rng)
+            run.count("fragment_built_around_a_negated_composite")
+        else:
+            e = G.gen_expr(run.rng, run.rng.choice([0, 1, 1, 2, 2, 3, 4]), FRAGMENT)
         s, c2, n2 = describe_full(e, False, False)
         run.evaluations += 1
         run.count("fragment_expressions")
@@ -326,7 +453,9 @@ def check(run):
         groups.setdefault(s, {}).setdefault(accepted(e, dom), []).append(e)
         # its semantic neighbours: if one accepts other values it must be described differently
         vs = list(variants(e))
-        for v in (vs if len(vs) <= 8 else run.rng.sample(vs, 8)):
+        must = list(variants(e, negation_variants_at_root))
+        run.count("fragment_negation_neighbours", len(must))
+        for v in must[:6] + (vs if len(vs) <= 8 else run.rng.sample(vs, 8)):
             run.count("fragment_neighbours")
             run.evaluations += 1
             groups.setdefault(describe_full(v, False, False)[0], {}).setdefault(accepted(v, dom), []).append(v)
@@ -348,6 +477,7 @@ def check(run):
             else:
                 run.nontrivial.add(s)
                 for t in tags:
+                    run.count("collisions_explained_by_" + t)
                     run.violation("faithful:" + t, "same description, different verdicts", rp)
 
     # ---- the sentence recorded by a real check_that (quiet, so that result details play no role)
@@ -394,8 +524,13 @@ def check(run):
         "settings, description string and transformer state afterwards compared with Model.Describe inside Coq; sentences "
         "recorded by real check_that calls; oracles on every expression: transformer unchanged after build_description, "
         "operands of a composite described as alone (probe matchers), not_(not_ m) worded as m, not_ m worded as m under the "
-        "flipped transformer; faithfulness: expressions of the property's fragment and up to 8 semantic neighbours of each (one connective swapped, one negation added or removed, a sibling constructor, a re-association) grouped by description, accepted sets over a "
-        "29-value separating domain compared within a group, every collision must be explained by a recorded cause; "
+        "flipped transformer, not_(composite) worded as the dual composite of the negations (De Morgan); faithfulness: "
+        "expressions of the property's fragment -- negated composites included -- and up to 8 semantic neighbours of each (one "
+        "connective swapped, one negation added or removed, a negation distributed with the same / the dual connective, a "
+        "sibling constructor, a re-association, the other grouping of a line holding a negated composite) grouped by "
+        "description, accepted sets over a 29-value separating domain compared within a group, every collision must be "
+        "explained by a recorded open cause whose rewrite is checked on the tree under test (wording-preserving, or "
+        "logic-preserving and layout-only); "
         "non-trivial = a description shared by expressions with different accepted sets (explained collision), or a composite "
         "with a negated operand whose siblings were probed")
 
@@ -421,6 +556,17 @@ def transformer_oracles(run, e, c, n, observed):
                           {"kind": "sibling", "expr": repr(small), "conjugate": c, "negative": n, "operand": h2[0],
                            "inside": h2[1], "alone": h2[2]})
             break
+    for x in nodes(e):
+        if x[0] in ("all_of", "any_of") and len(x[1]) >= 2:
+            run.count("de_morgan_checked")
+            if de_morgan_oracle(x, c, n):
+                small = G.shrink(x, lambda y: y[0] in ("all_of", "any_of") and bool(de_morgan_oracle(y, c, n)))
+                d1, d2 = de_morgan_oracle(small, c, n)
+                run.violation("negation:composite-not-worded-by-de-morgan",
+                              "not_(all_of(a, b)) is not described like any_of(not_(a), not_(b)) (or dually)",
+                              {"kind": "de-morgan", "expr": repr(small), "conjugate": c, "negative": n,
+                               "negated": d1, "dual_of_negations": d2})
+                break
     dn = describe_full(("not_", ("not_", e)), c, n)[0]
     if dn != s:
         run.violation("negation:double-negation-worded-differently", "not_(not_(m)) is not described like m",
@@ -432,6 +578,29 @@ def transformer_oracles(run, e, c, n, observed):
         run.violation("negation:wording-does-not-follow-logic", "not_(m) is not described as m under the flipped transformer",
                       {"kind": "negation", "expr": repr(G.shrink(e, lambda x: describe_full(("not_", x), c, n)[0] != describe_full(x, c, not n)[0])),
                        "conjugate": c, "negative": n})
+
+
+def de_morgan_sides(x, c, n):
+    """For a composite x = rel[a, b..]: the descriptions of not_(x) and of dual_rel[not_(a), not_(b)..], and whether some operand
+    is itself an all_of / any_of object (then the first is always itemised and only the words are compared)."""
+    d1 = describe_full(("not_", x), c, n)[0]
+    d2 = describe_full((DUAL[x[0]], [("not_", a) for a in x[1]]), c, n)[0]
+    nested = any(not G.is_value_arg(a) and strip_is(a)[0] in ("all_of", "any_of") for a in x[1])
+    return d1, d2, nested
+
+
+def strip_is(a):
+    while not G.is_value_arg(a) and a[0] == "is_" and not G.is_value_arg(a[1]):
+        a = a[1]
+    return a
+
+
+def de_morgan_oracle(x, c, n):
+    """None when the negation of the composite x is worded by De Morgan, else the two descriptions."""
+    d1, d2, nested = de_morgan_sides(x, c, n)
+    if (words_of(d1) != words_of(d2)) if nested else (d1 != d2):
+        return d1, d2
+    return None
 
 
 def replay(path):
@@ -463,6 +632,10 @@ def replay(path):
         a, b = describe_full(("not_", e), rp["conjugate"], rp["negative"])[0], describe_full(e, rp["conjugate"], not rp["negative"])[0]
         print(json.dumps({"not_": a, "flipped": b}))
         return 1 if a != b else 0
+    if kind == "de-morgan":
+        hit = de_morgan_oracle(G.parse(rp["expr"]), rp["conjugate"], rp["negative"])
+        print(json.dumps({"expr": rp["expr"], "negated": hit and hit[0], "dual_of_negations": hit and hit[1]}))
+        return 1 if hit else 0
     if kind == "sentence":
         e = G.parse(rp["expr"])
         o = I.run_operations([("check_that", e, None, True, rp["hint"])])[0]
